@@ -44,6 +44,11 @@ MON_A = ("ctxactive", "refeq", "restore", "nesting")
 HOWS = ["call", "value", "yielded", "yielded_value"]
 
 
+def _shrunk(prog, how, pol, cs, oracle):
+    small, runs = tl.shrink_for(prog, how, pol, cs, MON_A, oracle)
+    return {"shrunk_program": small, "shrink_runs": runs}
+
+
 def plan(tier, seed, build, scale):
     n = int((1800 if tier == "quick" else 24000) * scale)
     per = max(1, n // (10 if tier == "quick" else 40))
@@ -74,6 +79,9 @@ def run_unit(unit, progress):
         cs = tl.case_seed(unit["seed"], ID, i)
         na = i % 3 == 2
         prog = gen.generate(cs, PROFILE_N if na else PROFILE_A)
+        if prog.get("shared"):
+            # a read under a task awaited by several parents has no unique sequential answer
+            gen.strip_reads_under_shared(prog)
         rnd = random.Random(cs ^ 0xC06)
         try:
             exp_rrt = ref.evaluate(prog)
@@ -108,7 +116,7 @@ def run_unit(unit, progress):
                         {
                             "oracle": v["oracle"],
                             "mechanism": classify(v, prog, rt),
-                            "detail": {"how": how, "prio": pol, "violation": v["detail"], "program": prog},
+                            "detail": dict({"how": how, "prio": pol, "violation": v["detail"], "program": prog}, **_shrunk(prog, how, pol, cs, v["oracle"])),
                             "case": {"cases": [i, i + 1]},
                         }
                     )
